@@ -15,26 +15,11 @@
   About `Gedcom.Warn.warnings` (the function the driver runs).
 -/
 import Gedcom.Props.C20
+import Gedcom.Model.WarningsSpec
 namespace Gedcom.C20
 open Gedcom Gedcom.Warn
 
 /-! ### views of a DATE value used by the specification -/
-
-/-- `StartDate().Years()` as an exact fraction -/
-def sYears (x : DateV) : Int × Int := startFrac (some x)
-/-- `EndDate().Years()` as an exact fraction -/
-def eYears (x : DateV) : Int × Int := endFrac (some x)
-
-/-- `a < b` for fractions with positive denominators -/
-def FracLt (a b : Int × Int) : Prop := a.1 * b.2 < b.1 * a.2
-
-instance (a b : Int × Int) : Decidable (FracLt a b) := by unfold FracLt; exact inferInstance
-
-/-- an end of the value carries a parse error -/
-def _root_.Gedcom.Warn.DateV.parseErr : DateV → Bool
-  | .ok _ => false
-  | .bad _ => true
-  | .gen _ s e => s.parseError || e.parseError
 
 /-- the start `Years()` of an exact day is C05's fraction; of a general date that of its start -/
 theorem sYears_ok (t : Date) : sYears (.ok t) = ((t.year : Int) * t.yearsDen + t.yearsNum, t.yearsDen) := rfl
@@ -163,21 +148,6 @@ def SibSpecG (d : Doc) (c1 c2 : Nat) : Prop :=
 theorem SibSpecG.symm {d : Doc} {a b : Nat} (h : SibSpecG d a b) : SibSpecG d b a := by
   obtain ⟨hne, x1, x2, h1, h2, p1, p2, h3⟩ := h
   exact ⟨fun e => hne e.symm, x2, x1, h2, h1, p2, p1, h3.symm⟩
-
-/-- guard, per DATE value: it carries a parse error (the code skips it), or both ends are Go's zero
-    time (years 0 / above 9999: `Time()` cannot represent them), or both ends are whole days inside
-    the window `[lo, hi]` -/
-def _root_.Gedcom.Warn.DateV.sibOK (lo hi : Int) (x : DateV) : Bool :=
-  x.parseErr ||
-  (startI (some x) == zeroTime && endI (some x) == zeroTime) ||
-  (startI (some x) == dayS x * nsPerDay && endI (some x) == (dayE x + 1) * nsPerDay - 1 &&
-    decide (lo ≤ dayS x) && decide (dayS x ≤ hi) && decide (lo ≤ dayE x) && decide (dayE x ≤ hi))
-
-/-- guard, per document (decidable): every DATE of every individual is `sibOK` -/
-def SibDates (lo hi : Int) (d : Doc) : Prop :=
-  ((indis d).all fun i => i.events.all fun e => e.dates.all (DateV.sibOK lo hi)) = true
-
-instance (lo hi : Int) (d : Doc) : Decidable (SibDates lo hi d) := by unfold SibDates; exact inferInstance
 
 /-- `subErr` is "either operand carries a parse error" -/
 def errO : Option DateV → Bool
@@ -417,6 +387,715 @@ theorem siblings_general_counterexample :
   revert hd
   decide
 
+
+
+/-! ### `Years()` on one integer scale, and "the first date with the least / greatest `Years()`"
+
+  The denominators of `Years()` are 1, 2, 366, 732 or 734, so every value is a whole number of
+  1/268644 years (`keyOf`).  `DateNodes.Minimum()` / `Maximum()` then select the first element with
+  the least start key / greatest end key (`firstMin`, `firstMax`: plain recursion over the list,
+  unlike the code's left fold with its running candidate). -/
+
+def GoodDen (n : Int) : Prop := n = 1 ∨ n = 2 ∨ n = 366 ∨ n = 732 ∨ n = 734
+
+theorem keyOf_mul (f : Int × Int) (h : GoodDen f.2) : keyOf f * f.2 = 268644 * f.1 := by
+  unfold keyOf
+  rcases h with h | h | h | h | h <;> rw [h] <;> omega
+
+theorem fracLt_key {a b : Int × Int} (ha : GoodDen a.2) (hb : GoodDen b.2) :
+    FracLt a b ↔ keyOf a < keyOf b := by
+  unfold FracLt keyOf
+  rcases ha with h | h | h | h | h <;> rcases hb with h' | h' | h' | h' | h' <;> rw [h, h'] <;> omega
+
+theorem cum_nonneg (l : Bool) (m : Nat) : 0 ≤ cum l m := by
+  unfold cum
+  split <;> (try split) <;> omega
+
+theorem dim_nonneg (l : Bool) (m : Nat) : 0 ≤ dim l m := by
+  unfold dim
+  split <;> (try split) <;> omega
+
+theorem yearsNum_pos' (t : Date) : 0 < t.yearsNum := by
+  unfold Date.yearsNum yearDay
+  have c := cum_nonneg (isLeap t.year) t.month
+  have dn := dim_nonneg (isLeap t.year) t.month
+  split
+  · rcases daysInYear_cases (t.year : Int) with e | e <;> rw [e] <;> omega
+  · split
+    · omega
+    · omega
+
+theorem date_frac_good (t : Date) :
+    GoodDen t.yearsDen ∧ 0 < (t.year : Int) * t.yearsDen + t.yearsNum := by
+  have hp := yearsNum_pos' t
+  have hy : (0 : Int) ≤ (t.year : Int) := Int.natCast_nonneg _
+  rcases yearsDen_cases t with e | e
+  · exact ⟨Or.inr (Or.inr (Or.inr (Or.inl e))), by rw [e]; omega⟩
+  · exact ⟨Or.inr (Or.inr (Or.inr (Or.inr e))), by rw [e]; omega⟩
+
+theorem pfrac_good (p : PDate) : GoodDen p.yearsFrac.2 ∧ 0 ≤ p.yearsFrac.1 := by
+  unfold PDate.yearsFrac
+  split
+  · exact ⟨Or.inl rfl, by simp⟩
+  · split
+    · have := date_frac_good p.toDate
+      exact ⟨this.1, by have := this.2; simp only [PDate.toDate] at *; omega⟩
+    · split
+      · exact ⟨Or.inr (Or.inl rfl), by simp only; omega⟩
+      · exact ⟨Or.inr (Or.inr (Or.inl rfl)), by simp⟩
+
+theorem keyOf_nonneg {f : Int × Int} (h : GoodDen f.2) (hn : 0 ≤ f.1) : 0 ≤ keyOf f := by
+  unfold keyOf
+  rcases h with h | h | h | h | h <;> rw [h] <;> omega
+
+theorem keyOf_pos {f : Int × Int} (h : GoodDen f.2) (hn : 0 < f.1) : 0 < keyOf f := by
+  unfold keyOf
+  rcases h with h | h | h | h | h <;> rw [h] <;> omega
+
+theorem sYears_good (x : DateV) : GoodDen (sYears x).2 ∧ 0 ≤ (sYears x).1 := by
+  cases x with
+  | ok t => have := date_frac_good t; exact ⟨this.1, Int.le_of_lt this.2⟩
+  | bad l => exact ⟨Or.inl rfl, by simp [sYears, startFrac]⟩
+  | gen l s e => exact pfrac_good s
+
+theorem eYears_good (x : DateV) : GoodDen (eYears x).2 ∧ 0 ≤ (eYears x).1 := by
+  cases x with
+  | ok t => have := date_frac_good t; exact ⟨this.1, Int.le_of_lt this.2⟩
+  | bad l => exact ⟨Or.inl rfl, by simp [eYears, endFrac]⟩
+  | gen l s e => exact pfrac_good e
+
+/-- `Minimum()`'s comparison is `<` on the start keys, for values of every shape -/
+theorem yearsLtV_key (y m : DateV) : yearsLtV (some y) (some m) = true ↔ skey y < skey m := by
+  have gy := sYears_good y
+  have gm := sYears_good m
+  have hk := fracLt_key gy.1 gm.1
+  unfold skey
+  cases m with
+  | bad l =>
+    have : keyOf (sYears (.bad l)) = 0 := by simp [keyOf, sYears, startFrac]
+    have := keyOf_nonneg gy.1 gy.2
+    cases y <;> simp [yearsLtV] <;> omega
+  | ok t =>
+    cases y with
+    | ok u =>
+      rw [← hk]
+      show decide (u.yearsLt t) = true ↔ _
+      rw [decide_eq_true_iff]; rfl
+    | bad l =>
+      have h0 : keyOf (sYears (.bad l)) = 0 := by simp [keyOf, sYears, startFrac]
+      have := keyOf_pos (f := sYears (.ok t)) (date_frac_good t).1 (date_frac_good t).2
+      simp only [yearsLtV, true_iff, h0]
+      exact this
+    | gen l s e =>
+      rw [← hk]
+      show fracLt _ _ = true ↔ _
+      simp only [fracLt, decide_eq_true_iff]; rfl
+  | gen l s e =>
+    rw [← hk]
+    cases y <;> (show fracLt _ _ = true ↔ _) <;> simp only [fracLt, decide_eq_true_iff] <;> rfl
+
+/-- `Maximum()`'s comparison is `<` on the end keys -/
+theorem yearsLtE_key (y m : DateV) : yearsLtE (some y) (some m) = true ↔ ekey y < ekey m := by
+  have gy := eYears_good y
+  have gm := eYears_good m
+  have hk := fracLt_key gy.1 gm.1
+  unfold ekey
+  cases m with
+  | bad l =>
+    have : keyOf (eYears (.bad l)) = 0 := by simp [keyOf, eYears, endFrac]
+    have := keyOf_nonneg gy.1 gy.2
+    cases y <;> simp [yearsLtE] <;> omega
+  | ok t =>
+    cases y with
+    | ok u =>
+      rw [← hk]
+      show decide (u.yearsLt t) = true ↔ _
+      rw [decide_eq_true_iff]; rfl
+    | bad l =>
+      have h0 : keyOf (eYears (.bad l)) = 0 := by simp [keyOf, eYears, endFrac]
+      have := keyOf_pos (f := eYears (.ok t)) (date_frac_good t).1 (date_frac_good t).2
+      simp only [yearsLtE, true_iff, h0]
+      exact this
+    | gen l s e =>
+      rw [← hk]
+      show fracLt _ _ = true ↔ _
+      simp only [fracLt, decide_eq_true_iff]; rfl
+  | gen l s e =>
+    rw [← hk]
+    cases y <;> (show fracLt _ _ = true ↔ _) <;> simp only [fracLt, decide_eq_true_iff] <;> rfl
+
+/-- what `firstMin` returns: an element, nothing before it has a key as small, nothing after it a
+    smaller one -/
+theorem firstMin_spec (key : DateV → Int) : ∀ (ds : List DateV) (a : DateV), firstMin key ds = some a →
+    ∃ pre post, ds = pre ++ a :: post ∧ (∀ x ∈ pre, key a < key x) ∧ (∀ x ∈ post, key a ≤ key x) := by
+  intro ds
+  induction ds with
+  | nil => intro a h; simp [firstMin] at h
+  | cons x rest ih =>
+    intro a h
+    simp only [firstMin] at h
+    cases hr : firstMin key rest with
+    | none =>
+      rw [hr] at h
+      simp only [Option.some.injEq] at h
+      subst h
+      have : rest = [] := by
+        cases rest with
+        | nil => rfl
+        | cons y ys =>
+          simp only [firstMin] at hr
+          split at hr
+          · simp at hr
+          · split at hr <;> simp at hr
+      subst this
+      exact ⟨[], [], rfl, by simp, by simp⟩
+    | some m =>
+      rw [hr] at h
+      obtain ⟨pre, post, e, h1, h2⟩ := ih m hr
+      simp only at h
+      split at h
+      · rename_i hlt
+        simp only [Option.some.injEq] at h
+        subst h
+        refine ⟨x :: pre, post, by rw [e]; rfl, ?_, h2⟩
+        intro y hy
+        rcases List.mem_cons.mp hy with rfl | hy
+        · exact hlt
+        · exact h1 y hy
+      · rename_i hlt
+        simp only [Option.some.injEq] at h
+        subst h
+        refine ⟨[], rest, rfl, by simp, ?_⟩
+        intro y hy
+        rw [e] at hy
+        rcases List.mem_append.mp hy with hy | hy
+        · have := h1 y hy; omega
+        · rcases List.mem_cons.mp hy with rfl | hy
+          · omega
+          · have := h2 y hy; omega
+
+theorem fold_firstMin (key : DateV → Int) (step : DateV → DateV → DateV)
+    (hstep : ∀ m y, step m y = if key y < key m then y else m) :
+    ∀ (rest : List DateV) (m : DateV), rest.foldl step m =
+      match firstMin key rest with
+      | none => m
+      | some r => if key r < key m then r else m := by
+  intro rest
+  induction rest with
+  | nil => intro m; rfl
+  | cons y ys ih =>
+    intro m
+    simp only [List.foldl_cons, firstMin]
+    rw [ih, hstep]
+    cases firstMin key ys with
+    | none => rfl
+    | some r =>
+      simp only
+      by_cases h1 : key y < key m <;> by_cases h2 : key r < key y <;> by_cases h3 : key r < key m <;>
+        simp [h1, h2, h3] <;> omega
+
+theorem firstMin_skey (ds : List DateV) : firstMin skey ds = minimumV ds := by
+  cases ds with
+  | nil => rfl
+  | cons x rest =>
+    rw [minimumV_cons, fold_firstMin skey minStep (fun m y => by
+      unfold minStep
+      by_cases h : skey y < skey m
+      · rw [if_pos h, if_pos ((yearsLtV_key y m).mpr h)]
+      · rw [if_neg h, if_neg (fun h' => h ((yearsLtV_key y m).mp h'))])]
+    simp only [firstMin]
+    cases firstMin skey rest with
+    | none => rfl
+    | some r => simp only; split <;> rfl
+
+theorem firstMax_ekey (ds : List DateV) : firstMax ekey ds = maximumV ds := by
+  unfold firstMax
+  cases ds with
+  | nil => rfl
+  | cons x rest =>
+    rw [maximumV_cons, fold_firstMin (fun x => - ekey x) maxStep (fun m y => by
+      unfold maxStep
+      by_cases h : ekey m < ekey y
+      · rw [if_pos ((yearsLtE_key m y).mpr h), if_pos (by omega)]
+      · rw [if_neg (fun h' => h ((yearsLtE_key m y).mp h')), if_neg (by omega)])]
+    simp only [firstMin]
+    cases firstMin (fun x => - ekey x) rest with
+    | none => rfl
+    | some r => simp only; split <;> rfl
+
+theorem estBirthS_eq (i : Indi) : estBirthS i = estBirth i := by
+  unfold estBirthS estBirth
+  simp only [firstMin_skey]
+
+theorem estDeathS_eq (i : Indi) : estDeathS i = estDeath i := by
+  unfold estDeathS estDeath
+  simp only [firstMin_skey]
+
+/-! ### MarriedOutOfRange on general dates -/
+
+theorem wholeIn_iff {lo hi : Int} {x : DateV} : x.wholeIn lo hi = true ↔
+    startI (some x) = dayS x * nsPerDay ∧ endI (some x) = (dayE x + 1) * nsPerDay - 1 ∧
+      lo ≤ dayS x ∧ dayS x ≤ hi ∧ lo ≤ dayE x ∧ dayE x ≤ hi := by
+  simp only [DateV.wholeIn, Bool.and_eq_true, beq_iff_eq, decide_eq_true_eq, and_assoc]
+
+theorem WholeDates.indi {lo hi : Int} {d : Doc} (h : WholeDates lo hi d) {i : Indi}
+    (hi' : Rec.indi i ∈ d) {e : Ev} (he : e ∈ i.events) {x : DateV} (hx : x ∈ e.dates)
+    (hv : x.valid = true) : x.wholeIn lo hi = true := by
+  unfold WholeDates at h
+  rw [List.all_eq_true] at h
+  have := h _ hi'
+  simp only [List.all_eq_true] at this
+  simpa [hv] using this e he _ hx
+
+theorem WholeDates.fam {lo hi : Int} {d : Doc} (h : WholeDates lo hi d) {f : Fam}
+    (hf : Rec.fam f ∈ d) {e : Ev} (he : e ∈ f.events) {x : DateV} (hx : x ∈ e.dates)
+    (hv : x.valid = true) : x.wholeIn lo hi = true := by
+  unfold WholeDates at h
+  rw [List.all_eq_true] at h
+  have := h _ hf
+  simp only [List.all_eq_true] at this
+  simpa [hv] using this e he _ hx
+
+theorem fold_max_mem : ∀ (rest : List DateV) (m : DateV),
+    rest.foldl maxStep m = m ∨ rest.foldl maxStep m ∈ rest := by
+  intro rest
+  induction rest with
+  | nil => intro m; exact Or.inl rfl
+  | cons y rest ih =>
+    intro m
+    simp only [List.foldl_cons]
+    rcases ih (maxStep m y) with h | h
+    · rw [h]
+      unfold maxStep
+      split
+      · exact Or.inr (by simp)
+      · exact Or.inl rfl
+    · exact Or.inr (by simp [h])
+
+theorem maximumV_mem {ds : List DateV} {x : DateV} (h : maximumV ds = some x) : x ∈ ds := by
+  cases ds with
+  | nil => simp [maximumV] at h
+  | cons y rest =>
+    rw [maximumV_cons] at h
+    simp only [Option.some.injEq] at h
+    subst h
+    rcases fold_max_mem rest y with h | h
+    · rw [h]; simp
+    · simp [h]
+
+theorem ageAt_valid {i : Indi} {a c xb : DateV} (heb : estBirth i = some xb) (hv : xb.valid = true) :
+    (ageAt i a c).known = true ∧
+    (ageAt i a c).hi =
+      if dateSub (startI (some a)) (startI (some xb)) > dateSub (endI (some c)) (endI (some xb))
+      then dateSub (startI (some a)) (startI (some xb))
+      else dateSub (endI (some c)) (endI (some xb)) := by
+  unfold ageAt
+  simp only [heb, validO, hv, Bool.not_true, Bool.false_eq_true, if_false]
+  split <;> simp
+
+/-- the age arithmetic on whole days inside a window of 106751 days: the larger of the two
+    distances (first day to first day, last day to last day) against 16 and 100 years of 365.25 days -/
+theorem moor_arith_gen (lo A B1 C B2 : Int)
+    (a1 : lo ≤ A) (a2 : A ≤ lo + 106751) (a3 : lo ≤ B1) (a4 : B1 ≤ lo + 106751)
+    (a5 : lo ≤ C) (a6 : C ≤ lo + 106751) (a7 : lo ≤ B2) (a8 : B2 ≤ lo + 106751) :
+    ((if dateSub (A * nsPerDay) (B1 * nsPerDay) > dateSub ((C + 1) * nsPerDay - 1) ((B2 + 1) * nsPerDay - 1)
+      then dateSub (A * nsPerDay) (B1 * nsPerDay)
+      else dateSub ((C + 1) * nsPerDay - 1) ((B2 + 1) * nsPerDay - 1)) <
+        Generated.minMarriageAge * Generated.yearNs ↔
+      absd A B1 * 4 < 16 * 1461 ∧ absd C B2 * 4 < 16 * 1461) ∧
+    ((if dateSub (A * nsPerDay) (B1 * nsPerDay) > dateSub ((C + 1) * nsPerDay - 1) ((B2 + 1) * nsPerDay - 1)
+      then dateSub (A * nsPerDay) (B1 * nsPerDay)
+      else dateSub ((C + 1) * nsPerDay - 1) ((B2 + 1) * nsPerDay - 1)) >
+        Generated.maxMarriageAge * Generated.yearNs ↔
+      absd A B1 * 4 > 100 * 1461 ∨ absd C B2 * 4 > 100 * 1461) := by
+  have s1 := dateSub_spec (A * nsPerDay) (B1 * nsPerDay)
+  have s2 := dateSub_spec ((C + 1) * nsPerDay - 1) ((B2 + 1) * nsPerDay - 1)
+  generalize dateSub (A * nsPerDay) (B1 * nsPerDay) = v1 at *
+  generalize dateSub ((C + 1) * nsPerDay - 1) ((B2 + 1) * nsPerDay - 1) = v2 at *
+  simp only [nsPerDay, absd, Generated.minMarriageAge, Generated.maxMarriageAge, Generated.yearNs] at *
+  constructor
+  · split <;> split <;> split <;> omega
+  · split <;> split <;> split <;> omega
+
+/-- the two day distances the married check looks at: first day of the earliest marriage date
+    against the first day of the estimated birth, last day of the latest marriage date against the
+    last day of the estimated birth -/
+def MoorYoung (a b xb : DateV) : Prop :=
+  absd (dayS a) (dayS xb) * 4 < 16 * 1461 ∧ absd (dayE b) (dayE xb) * 4 < 16 * 1461
+def MoorOld (a b xb : DateV) : Prop :=
+  absd (dayS a) (dayS xb) * 4 > 100 * 1461 ∨ absd (dayE b) (dayE xb) * 4 > 100 * 1461
+
+theorem minimumV_none {ds : List DateV} : minimumV ds = none ↔ ds = [] := by
+  cases ds <;> simp [minimumV]
+theorem maximumV_none {ds : List DateV} : maximumV ds = none ↔ ds = [] := by
+  cases ds <;> simp [maximumV]
+
+theorem ageAtEvent_general {i : Indi} {e : Ev} {lo hi : Int} (hspan : hi - lo ≤ 106751)
+    (hi_ : ∀ e' ∈ i.events, ∀ x ∈ e'.dates, x.valid = true → x.wholeIn lo hi = true)
+    (he : ∀ x ∈ e.dates, x.valid = true → x.wholeIn lo hi = true) :
+    (((ageAtEvent i e).known = true ∧
+        (ageAtEvent i e).hi < Generated.minMarriageAge * Generated.yearNs) ↔
+      ∃ xb a b, estBirth i = some xb ∧ xb.valid = true ∧
+        minimumV (e.dates.filter DateV.valid) = some a ∧
+        maximumV (e.dates.filter DateV.valid) = some b ∧ MoorYoung a b xb) ∧
+    ((ageAtEvent i e).hi > Generated.maxMarriageAge * Generated.yearNs ↔
+      ∃ xb a b, estBirth i = some xb ∧ xb.valid = true ∧
+        minimumV (e.dates.filter DateV.valid) = some a ∧
+        maximumV (e.dates.filter DateV.valid) = some b ∧ MoorOld a b xb) := by
+  have hpos := yearNs_pos
+  have hpos2 : (0 : Int) < Generated.minMarriageAge * Generated.yearNs := by
+    simp [Generated.minMarriageAge, Generated.yearNs]
+  unfold ageAtEvent
+  simp only
+  cases hmin : minimumV (e.dates.filter DateV.valid) with
+  | none =>
+    simp only [unknownAges]
+    refine ⟨⟨fun h => by simp at h, ?_⟩, ⟨fun h => by omega, ?_⟩⟩ <;>
+      · rintro ⟨_, _, _, _, _, h, _⟩; simp at h
+  | some a =>
+    cases hmax : maximumV (e.dates.filter DateV.valid) with
+    | none =>
+      rw [maximumV_none] at hmax
+      rw [hmax] at hmin
+      simp [minimumV] at hmin
+    | some b =>
+      simp only
+      by_cases hv : validO (estBirth i) = true
+      · obtain ⟨xb, hxb, hvb⟩ := validO_iff_some.mp hv
+        obtain ⟨hk, hhi⟩ := ageAt_valid (a := a) (c := b) hxb hvb
+        obtain ⟨eb', heb', hxb'⟩ := estBirth_mem hxb
+        obtain ⟨w1, w2, w3, w4, w5, w6⟩ := wholeIn_iff.mp (hi_ eb' heb' xb hxb' hvb)
+        have hma := List.mem_filter.mp (minimumV_mem hmin)
+        have hmb := List.mem_filter.mp (maximumV_mem hmax)
+        obtain ⟨u1, u2, u3, u4, u5, u6⟩ := wholeIn_iff.mp (he a hma.1 hma.2)
+        obtain ⟨v1, v2, v3, v4, v5, v6⟩ := wholeIn_iff.mp (he b hmb.1 hmb.2)
+        have ar := moor_arith_gen lo (dayS a) (dayS xb) (dayE b) (dayE xb)
+          (by omega) (by omega) (by omega) (by omega) (by omega) (by omega) (by omega) (by omega)
+        rw [hhi, hk, u1, w1, v2, w2]
+        constructor
+        · constructor
+          · rintro ⟨_, h⟩
+            exact ⟨xb, a, b, hxb, hvb, rfl, rfl, ar.1.mp h⟩
+          · rintro ⟨xb', a', b', h1, _, h2, h3, h4⟩
+            rw [hxb] at h1
+            simp only [Option.some.injEq] at h1 h2 h3
+            subst h1; subst h2; subst h3
+            exact ⟨rfl, ar.1.mpr h4⟩
+        · constructor
+          · intro h
+            exact ⟨xb, a, b, hxb, hvb, rfl, rfl, ar.2.mp h⟩
+          · rintro ⟨xb', a', b', h1, _, h2, h3, h4⟩
+            rw [hxb] at h1
+            simp only [Option.some.injEq] at h1 h2 h3
+            subst h1; subst h2; subst h3
+            exact ar.2.mpr h4
+      · have hv' : validO (estBirth i) = false := by simpa using hv
+        obtain ⟨hk, hhi⟩ := ageAt_unknown (a := a) (c := b) hv'
+        rw [hk, hhi]
+        refine ⟨⟨fun h => by simp at h, ?_⟩, ⟨fun h => by omega, ?_⟩⟩ <;>
+          · rintro ⟨xb, _, _, h1, h2, _⟩
+            rw [h1] at hv
+            simp [validO, h2] at hv
+
+/-- **MarriedOutOfRange, general dates** (partial: explicit decidable guard `WholeDates lo hi d`,
+    `hi − lo ≤ 106751`).  For the MARR node at position `k` of family `fp` and spouse `sp`: reported
+    exactly when `sp` is the HUSB or WIFE, the estimated birth `xb` of `sp` (`estBirthS`: the first
+    of all BIRT dates with the least start `Years()`, else of all baptism dates) is a valid date of
+    any shape, the node has a valid date, and with `a` = the first of its valid dates with the least
+    start `Years()` and `b` = the first with the greatest end `Years()`
+    * young: first day of `a` and last day of `b` are both fewer than 16 × 365.25 days from the first
+      / last day of `xb`;
+    * old: one of the two distances exceeds 100 × 365.25 days. -/
+theorem married_sound_complete_general_partial (d : Doc) (now : Date) {lo hi : Int}
+    (hg : WholeDates lo hi d) (hspan : hi - lo ≤ 106751) (fp sp : Nat) (old : Bool) (k : Nat) :
+    Warning.marriedOutOfRange fp sp old k ∈ warnings d now ↔
+      ∃ f, Rec.fam f ∈ d ∧ f.ptr = fp ∧ (f.husb = some sp ∨ f.wife = some sp) ∧
+        ∃ e, f.events[k]? = some e ∧ e.kind = .marr ∧
+          ∃ i, indiOf d sp = some i ∧ ∃ xb a b, estBirthS i = some xb ∧ xb.valid = true ∧
+            firstMin skey (e.dates.filter DateV.valid) = some a ∧
+            firstMax ekey (e.dates.filter DateV.valid) = some b ∧
+            ((old = false ∧ MoorYoung a b xb) ∨ (old = true ∧ MoorOld a b xb)) := by
+  simp only [estBirthS_eq, firstMin_skey, firstMax_ekey]
+  have spec : ∀ f, Rec.fam f ∈ d → ∀ e, e ∈ f.events → ∀ i, indiOf d sp = some i → _ :=
+    fun f hf e he i hi' => ageAtEvent_general (i := i) (e := e) hspan
+      (fun e' he' x hx hv => hg.indi (indiOf_some hi').1 he' hx hv)
+      (fun x hx hv => hg.fam hf he hx hv)
+  rw [warnings, mem_oncePerPair_other (by simp [Warning.kind]) (by simp [Warning.kind]), mem_warnings_cases]
+  constructor
+  · rintro (⟨i, hi, h | h | h | h⟩ | ⟨f, hf, h | h | h | h | h⟩)
+    all_goals try wrong_kind h
+    unfold marriedOutOfRange at h
+    obtain ⟨j, e, hj, hm⟩ := (mem_marriedFrom f.events 0).mp h
+    obtain ⟨hk, rfl, rfl, i, hi, hsp, hc⟩ := mem_marriedAt.mp hm
+    have he := List.mem_of_getElem? hj
+    have sp' := spec f hf e he i hi
+    refine ⟨f, hf, rfl, hsp, e, by simpa using hj, hk, i, hi, ?_⟩
+    rcases hc with ⟨rfl, h1, h2⟩ | ⟨rfl, h1⟩
+    · obtain ⟨xb, a, b, r1, r2, r3, r4, r5⟩ := sp'.1.mp ⟨h1, h2⟩
+      exact ⟨xb, a, b, r1, r2, r3, r4, Or.inl ⟨rfl, r5⟩⟩
+    · obtain ⟨xb, a, b, r1, r2, r3, r4, r5⟩ := sp'.2.mp h1
+      exact ⟨xb, a, b, r1, r2, r3, r4, Or.inr ⟨rfl, r5⟩⟩
+  · rintro ⟨f, hf, rfl, hsp, e, hj, hk, i, hi, xb, a, b, r1, r2, r3, r4, hc⟩
+    refine Or.inr ⟨f, hf, Or.inr (Or.inr (Or.inl ?_))⟩
+    unfold marriedOutOfRange
+    rw [mem_marriedFrom]
+    refine ⟨k, e, hj, ?_⟩
+    rw [Nat.zero_add, mem_marriedAt]
+    have he := List.mem_of_getElem? hj
+    have sp' := spec f hf e he i hi
+    refine ⟨hk, rfl, rfl, i, hi, hsp, ?_⟩
+    rcases hc with ⟨rfl, r5⟩ | ⟨rfl, r5⟩
+    · have := sp'.1.mpr ⟨xb, a, b, r1, r2, r3, r4, r5⟩
+      exact Or.inl ⟨rfl, this.1, this.2⟩
+    · exact Or.inr ⟨rfl, sp'.2.mpr ⟨xb, a, b, r1, r2, r3, r4, r5⟩⟩
+
+
+/-! ### IndividualTooOld on general dates -/
+
+theorem midYears_ok (t : Date) : midYears (.ok t) = sYears (.ok t) := rfl
+theorem midYears_gen (l : Nat) (s e : PDate) : midYears (.gen l s e) =
+    (s.yearsFrac.1 * e.yearsFrac.2 + e.yearsFrac.1 * s.yearsFrac.2, 2 * (s.yearsFrac.2 * e.yearsFrac.2)) := rfl
+
+/-- `Years(xd) − Years(xb) > n` on the ranges' `Years()` (cross-multiplied) -/
+def MidYearsApartGt (xb xd : DateV) (n : Int) : Prop :=
+  (midYears xd).1 * (midYears xb).2 - (midYears xb).1 * (midYears xd).2 >
+    n * ((midYears xd).2 * (midYears xb).2)
+
+instance (xb xd : DateV) (n : Int) : Decidable (MidYearsApartGt xb xd n) := by
+  unfold MidYearsApartGt; exact inferInstance
+
+/-- on exact days this is the `YearsApartGt` of `too_old_sound_complete` -/
+theorem midYearsApart_ok (tb td : Date) (n : Int) :
+    MidYearsApartGt (.ok tb) (.ok td) n ↔ YearsApartGt tb td n := Iff.rfl
+
+theorem midDen_bounds (x : DateV) : 0 < (midYears x).2 ∧ (midYears x).2 ≤ 1077512 := by
+  cases x with
+  | ok t =>
+    simp only [midYears, yearsFrac]
+    rcases yearsDen_cases t with e | e <;> rw [e] <;> omega
+  | bad l => simp [midYears, yearsFrac]
+  | gen l s e =>
+    simp only [midYears, yearsFrac]
+    rcases (pfrac_good s).1 with h | h | h | h | h <;> rcases (pfrac_good e).1 with h' | h' | h' | h' | h' <;>
+      rw [h, h'] <;> omega
+
+theorem trunc_gt (N D : Int) (h0 : 0 < D) (h1 : D < 31557600000000000) :
+    truncDiv (N * Generated.yearNs) D > Generated.maxLivingAge * Generated.yearNs ↔ N > 100 * D := by
+  unfold truncDiv
+  have hK : Generated.yearNs = 31557600000000000 := rfl
+  have hM : Generated.maxLivingAge = 100 := rfl
+  rw [hM, hK]
+  by_cases h : N * 31557600000000000 ≥ 0
+  · rw [if_pos h]
+    have key : 100 * 31557600000000000 + 1 ≤ N * 31557600000000000 / D ↔
+        (100 * 31557600000000000 + 1) * D ≤ N * 31557600000000000 := Int.le_ediv_iff_mul_le h0
+    constructor
+    · intro hh; have := key.mp (by omega); omega
+    · intro hh; have := key.mpr (by omega); omega
+  · rw [if_neg h]
+    have : 0 ≤ (-(N * 31557600000000000)) / D := Int.ediv_nonneg (by omega) (by omega)
+    constructor <;> intro hh <;> omega
+
+theorem ageAt_c_valid {i : Indi} {a c xb : DateV} (heb : estBirth i = some xb) (hv : xb.valid = true) :
+    (ageAt i a c).c =
+      if yearsLtV (some a) (some xb) then AgeC.beforeBirth
+      else if yearsLtE (estDeath i) (some c) && (estDeath i).isSome then AgeC.afterDeath
+      else AgeC.living := by
+  unfold ageAt
+  simp only [heb, validO, hv, Bool.not_true, Bool.false_eq_true, if_false]
+  split <;> rfl
+
+theorem PastDates.indi {now : Date} {d : Doc} (h : PastDates now d) {i : Indi} (hi : Rec.indi i ∈ d)
+    {e : Ev} (he : e ∈ i.events) {x : DateV} (hx : x ∈ e.dates) :
+    skey x ≤ skey (.ok now) ∧ ekey x < ekey (.ok now) := by
+  unfold PastDates at h
+  simp only [List.all_eq_true] at h
+  simpa [DateV.past] using h i (mem_indis.mpr hi) e he x hx
+
+theorem tooOld_iff_general {i : Indi} {now : Date}
+    (hpast : ∀ e ∈ i.events, ∀ x ∈ e.dates, skey x ≤ skey (.ok now) ∧ ekey x < ekey (.ok now)) :
+    ((ageNow i now).hi > Generated.maxLivingAge * Generated.yearNs ∧ (estDeath i).isSome = true) ↔
+      ∃ xb xd, estBirth i = some xb ∧ xb.valid = true ∧ estDeath i = some xd ∧
+        MidYearsApartGt xb xd 100 := by
+  have hpos : (0 : Int) < Generated.maxLivingAge * Generated.yearNs := by
+    simp [Generated.maxLivingAge, Generated.yearNs]
+  by_cases hv : validO (estBirth i) = true
+  · obtain ⟨xb, heb, hvb⟩ := validO_iff_some.mp hv
+    obtain ⟨eb', heb', hxb'⟩ := estBirth_mem heb
+    have hbp := hpast eb' heb' xb hxb'
+    have hnb : yearsLtV (some (.ok now)) (some xb) = false := by
+      cases h : yearsLtV (some (.ok now)) (some xb) with
+      | false => rfl
+      | true => have := (yearsLtV_key _ _).mp h; omega
+    have hc := ageAt_c_valid (a := .ok now) (c := .ok now) heb hvb
+    rw [hnb] at hc
+    simp only [Bool.false_eq_true, if_false] at hc
+    cases hed : estDeath i with
+    | none =>
+      constructor
+      · rintro ⟨_, h⟩; simp at h
+      · rintro ⟨_, _, _, _, h, _⟩; simp at h
+    | some xd =>
+      obtain ⟨ed', hed', hxd'⟩ := estDeath_mem hed
+      have hdp := hpast ed' hed' xd hxd'
+      have hafter : (ageAt i (.ok now) (.ok now)).c = AgeC.afterDeath := by
+        rw [hc, hed]
+        simp [(yearsLtE_key xd (.ok now)).mpr hdp.2]
+      have hage : (ageNow i now).hi =
+          truncDiv (((yearsFrac (some xd)).1 * (yearsFrac (some xb)).2 -
+            (yearsFrac (some xb)).1 * (yearsFrac (some xd)).2) * Generated.yearNs)
+            ((yearsFrac (some xd)).2 * (yearsFrac (some xb)).2) := by
+        unfold ageNow
+        simp only [hafter, if_true, hed, heb]
+      have b1 := midDen_bounds xd
+      have b2 := midDen_bounds xb
+      simp only [midYears] at b1 b2
+      have hD0 : 0 < (yearsFrac (some xd)).2 * (yearsFrac (some xb)).2 := Int.mul_pos b1.1 b2.1
+      have hD1 : (yearsFrac (some xd)).2 * (yearsFrac (some xb)).2 ≤ 1077512 * 1077512 :=
+        Int.mul_le_mul b1.2 b2.2 (by omega) (by omega)
+      rw [hage, trunc_gt _ _ hD0 (by omega)]
+      constructor
+      · rintro ⟨h, _⟩
+        exact ⟨xb, xd, heb, hvb, rfl, by unfold MidYearsApartGt midYears; omega⟩
+      · rintro ⟨xb', xd', e1, _, e2, h⟩
+        rw [heb] at e1
+        simp only [Option.some.injEq] at e1 e2
+        subst e1; subst e2
+        exact ⟨by unfold MidYearsApartGt midYears at h; omega, rfl⟩
+  · have hv' : validO (estBirth i) = false := by simpa using hv
+    have : ageNow i now = unknownAges := by
+      unfold ageNow ageAt
+      simp [hv', unknownAges]
+    rw [this]
+    constructor
+    · rintro ⟨h, _⟩; simp only [unknownAges] at h; omega
+    · rintro ⟨xb, _, h, h2, _⟩
+      rw [h] at hv'; simp [validO, h2] at hv'
+
+/-- **IndividualTooOld, general dates** (guard = the property's own domain: every DATE of an
+    individual lies in the past, `PastDates`, decidable; dates of every shape): reported for `p`
+    exactly when `p` has an estimated birth `xb` that is a valid date, an estimated death `xd`
+    (`estBirthS` / `estDeathS`: the first date with the least start `Years()` among the BIRT dates,
+    else the baptism dates / among the DEAT dates, else the BURI dates) and
+    `Years(xd) − Years(xb) > 100`, `Years()` of a range being the mean of its two ends (exact
+    fractions, `midYears`). -/
+theorem too_old_sound_complete_general (d : Doc) (now : Date) (hp : PastDates now d) (p : Nat) :
+    Warning.individualTooOld p ∈ warnings d now ↔
+      ∃ i, Rec.indi i ∈ d ∧ i.ptr = p ∧ ∃ xb xd, estBirthS i = some xb ∧ xb.valid = true ∧
+        estDeathS i = some xd ∧ MidYearsApartGt xb xd 100 := by
+  simp only [estBirthS_eq, estDeathS_eq]
+  have key : ∀ i, Rec.indi i ∈ d → _ := fun i hi =>
+    tooOld_iff_general (i := i) (now := now) (fun e he x hx => hp.indi hi he hx)
+  rw [warnings, mem_oncePerPair_other (by simp [Warning.kind]) (by simp [Warning.kind]), mem_warnings_cases]
+  constructor
+  · rintro (⟨i, hi, h | h | h | h⟩ | ⟨f, hf, h | h | h | h | h⟩)
+    all_goals try wrong_kind h
+    obtain ⟨rfl, h1, h2⟩ := mem_tooOld.mp h
+    obtain ⟨xb, xd, r1, r2, r3, r4⟩ := (key i hi).mp ⟨h1, h2⟩
+    exact ⟨i, hi, rfl, xb, xd, r1, r2, r3, r4⟩
+  · rintro ⟨i, hi, rfl, xb, xd, r1, r2, r3, r4⟩
+    refine Or.inl ⟨i, hi, Or.inr (Or.inl ?_)⟩
+    have := (key i hi).mpr ⟨xb, xd, r1, r2, r3, r4⟩
+    exact mem_tooOld.mpr ⟨rfl, this.1, this.2⟩
+
+
+/-! ### IncorrectEventOrder on dates of every shape, no guard -/
+
+theorem matrix_entirelyBefore (l1 l2 : Letter) :
+    Generated.compareMatrix l1 l2 = .entirelyBefore ↔ l1 = .b ∧ l2 = .b := by
+  cases l1 <;> cases l2 <;> simp [Generated.compareMatrix]
+
+theorem letterOf_b (v s e : Int) : letterOf v s e = .b ↔ v < s ∧ v ≠ e := by
+  unfold letterOf
+  constructor
+  · intro h
+    repeat' split at h
+    all_goals first | omega | (exact absurd h (by decide))
+  · rintro ⟨h1, h2⟩
+    have h3 : ¬ v = s := by omega
+    simp [h1, h2, h3]
+
+theorem letterEnd_b (v s e : Int) : letterEnd v s e = .b ↔ letterOf v s e = .b := by
+  unfold letterEnd
+  split
+  · rename_i h
+    rw [h.1]
+    constructor <;> intro h' <;> exact absurd h' (by decide)
+  · rfl
+
+/-- `DateRange.Compare` answers "entirely before" exactly when both ends of the receiver lie before
+    the argument's start and differ from the argument's end (for ranges that run forwards:
+    `b < c`, C06 `event_order`) -/
+theorem compare_entirelyBefore (a b c d : Int) :
+    compare a b c d = .entirelyBefore ↔ (a < c ∧ a ≠ d) ∧ (b < c ∧ b ≠ d) := by
+  unfold compare letterStart
+  rw [matrix_entirelyBefore, letterEnd_b, letterOf_b, letterOf_b]
+
+/-- what the event-order check decides about two dates: both ends of `x2` (first day of its start,
+    last day of its end) lie before the first day of `x1` and are not the last day of `x1` -/
+def EndsBefore (x2 x1 : DateV) : Prop :=
+  (dayS x2 < dayS x1 ∧ dayS x2 ≠ dayE x1) ∧ (dayE x2 < dayS x1 ∧ dayE x2 ≠ dayE x1)
+
+instance (x2 x1 : DateV) : Decidable (EndsBefore x2 x1) := by unfold EndsBefore; exact inferInstance
+
+/-- for ranges that run forwards it is "`x2` ends before `x1` starts" -/
+theorem endsBefore_forward {x2 x1 : DateV} (h1 : dayS x1 ≤ dayE x1) (h2 : dayS x2 ≤ dayE x2) :
+    EndsBefore x2 x1 ↔ dayE x2 < dayS x1 := by
+  unfold EndsBefore; omega
+
+/-- **IncorrectEventOrder, dates of every shape** (full, no guard): "the `k2` (`x2`) was before the
+    `k1` (`x1`)" is reported for individual `p` exactly when `p` has those two dated events, `k2`
+    belongs to a later group than `k1` (birth < baptism < death < burial), both dates are valid and
+    `x2` ends before `x1` starts (`EndsBefore`; `endsBefore_forward`). -/
+theorem event_order_sound_complete_general (d : Doc) (now : Date) (p : Nat) (k2 : EvKind) (x2 : DateV)
+    (k1 : EvKind) (x1 : DateV) :
+    Warning.incorrectEventOrder p k2 x2 k1 x1 ∈ warnings d now ↔
+      ∃ i, Rec.indi i ∈ d ∧ i.ptr = p ∧ ∃ g1 g2, groupOf k1 = some g1 ∧ groupOf k2 = some g2 ∧
+        g1 < g2 ∧ Dated i k1 x1 ∧ Dated i k2 x2 ∧ x1.valid = true ∧ x2.valid = true ∧
+        EndsBefore x2 x1 := by
+  have hpair : ∀ (q : Nat) (ev fut : EvKind × DateV),
+      Warning.incorrectEventOrder p k2 x2 k1 x1 ∈ orderPair q ev fut ↔
+        p = q ∧ ev = (k1, x1) ∧ fut = (k2, x2) ∧ x1.valid = true ∧ x2.valid = true ∧
+          EndsBefore x2 x1 := by
+    intro q ev fut
+    rw [orderPair_eq]
+    obtain ⟨ek, ed⟩ := ev
+    obtain ⟨fk, fd⟩ := fut
+    constructor
+    · intro h
+      split at h
+      · rename_i hc
+        simp only [List.mem_singleton, Warning.incorrectEventOrder.injEq] at h
+        obtain ⟨rfl, rfl, rfl, rfl, rfl⟩ := h
+        simp only [Bool.and_eq_true, decide_eq_true_eq] at hc
+        exact ⟨rfl, rfl, rfl, hc.1.1, hc.1.2, (compare_entirelyBefore _ _ _ _).mp hc.2⟩
+      · simp at h
+    · rintro ⟨rfl, he, hf, hv1, hv2, hlt⟩
+      simp only [Prod.mk.injEq] at he hf
+      obtain ⟨rfl, rfl⟩ := he
+      obtain ⟨rfl, rfl⟩ := hf
+      have := (compare_entirelyBefore _ _ _ _).mpr hlt
+      simp [hv1, hv2, this]
+  rw [warnings, mem_oncePerPair_other (by simp [Warning.kind]) (by simp [Warning.kind]), mem_warnings_cases]
+  constructor
+  · rintro (⟨i, hi, h | h | h | h⟩ | ⟨f, hf, h | h | h | h | h⟩)
+    all_goals try wrong_kind h
+    unfold incorrectEventOrder at h
+    obtain ⟨n, m, g, fg, hnm, hn, hm, ev, hev, fut, hfut, hw⟩ := (mem_orderFrom _).mp h
+    obtain ⟨rfl, rfl, rfl, hv1, hv2, hlt⟩ := (hpair _ _ _).mp hw
+    obtain ⟨hg1, hd1⟩ := (group_idx hn).mp hev
+    obtain ⟨hg2, hd2⟩ := (group_idx hm).mp hfut
+    exact ⟨i, hi, rfl, n, m, hg1, hg2, hnm, hd1, hd2, hv1, hv2, hlt⟩
+  · rintro ⟨i, hi, rfl, g1, g2, hg1, hg2, hlt, hd1, hd2, hv1, hv2, hday⟩
+    refine Or.inl ⟨i, hi, Or.inl ?_⟩
+    unfold incorrectEventOrder
+    rw [mem_orderFrom]
+    have hg2lt : g2 < 4 := by cases k2 <;> simp [groupOf] at hg2 <;> omega
+    obtain ⟨G1, hG1⟩ := group_idx_exists (i := i) (n := g1) (by omega)
+    obtain ⟨G2, hG2⟩ := group_idx_exists (i := i) (n := g2) hg2lt
+    exact ⟨g1, g2, G1, G2, hlt, hG1, hG2, (k1, x1), (group_idx hG1).mpr ⟨hg1, hd1⟩,
+      (k2, x2), (group_idx hG2).mpr ⟨hg2, hd2⟩, (hpair _ _ _).mpr ⟨rfl, rfl, rfl, hv1, hv2, hday⟩⟩
+
 /-! Non-vacuity -/
 
 /-- children: "Mar 1830" (month precision), "Bet. 20 Mar 1830 and 2 Apr 1830", "Abt. 1831" (a year:
@@ -436,5 +1115,30 @@ example : warnings sampleG today =
      .siblingsBornTooClose 1 1 2, .siblingsBornTooClose 1 1 4, .siblingsBornTooClose 1 2 4] := by decide
 example : SibDays (dayS (.ok ⟨2, 3, 1830⟩)) (dayE (.ok ⟨2, 3, 1830⟩)) (dayS (.ok ⟨4, 3, 1830⟩))
     (dayE (.ok ⟨4, 3, 1830⟩)) := by decide
+
+/-- husband "Mar 1800", wife "Abt. 1795"; MARR "Jun 1815" (he is 15, she 19 or 20) and MARR
+    "Bet. 1896 and 1897" (he is 96, she over 100 by the end of the range);
+    individual 3: born "1800", died "Bet. 1901 and 1903" (mean 1902.5: 102 years), buried "Jun 1901"
+    (its end lies before the start of the death range: reported); individual 4: born "1800", died
+    "Bet. 1899 and 1901" (mean 1900.5: exactly 100 years, not reported) -/
+def sampleM : Doc :=
+  [.indi ⟨1, [], [⟨.birt, [.gen 0 ⟨0, 3, 1800, .exact, false⟩ ⟨0, 3, 1800, .exact, false⟩]⟩]⟩,
+   .indi ⟨2, [], [⟨.birt, [.gen 0 ⟨0, 0, 1795, .about, false⟩ ⟨0, 0, 1795, .about, false⟩]⟩]⟩,
+   .indi ⟨3, [], [⟨.birt, [.gen 0 ⟨0, 0, 1800, .exact, false⟩ ⟨0, 0, 1800, .exact, false⟩]⟩,
+      ⟨.deat, [.gen 0 ⟨0, 0, 1901, .exact, false⟩ ⟨0, 0, 1903, .exact, false⟩]⟩,
+      ⟨.buri, [.gen 0 ⟨0, 6, 1900, .exact, false⟩ ⟨0, 6, 1900, .exact, false⟩]⟩]⟩,
+   .indi ⟨4, [], [⟨.birt, [.gen 0 ⟨0, 0, 1800, .exact, false⟩ ⟨0, 0, 1800, .exact, false⟩]⟩,
+      ⟨.deat, [.gen 0 ⟨0, 0, 1899, .exact, false⟩ ⟨0, 0, 1901, .exact, false⟩]⟩]⟩,
+   .fam ⟨1, some 1, some 2, [],
+      [⟨.marr, [.gen 0 ⟨0, 6, 1815, .exact, false⟩ ⟨0, 6, 1815, .exact, false⟩]⟩,
+       ⟨.marr, [.gen 0 ⟨0, 0, 1896, .exact, false⟩ ⟨0, 0, 1897, .exact, false⟩]⟩]⟩]
+
+example : WholeDates (dayOf ⟨1, 1, 1790⟩) (dayOf ⟨1, 1, 1910⟩) sampleM ∧
+    dayOf ⟨1, 1, 1910⟩ - dayOf ⟨1, 1, 1790⟩ ≤ 106751 ∧ PastDates today sampleM := by decide
+example : warnings sampleM today =
+    [.incorrectEventOrder 3 .buri (.gen 0 ⟨0, 6, 1900, .exact, false⟩ ⟨0, 6, 1900, .exact, false⟩)
+        .deat (.gen 0 ⟨0, 0, 1901, .exact, false⟩ ⟨0, 0, 1903, .exact, false⟩),
+     .individualTooOld 3,
+     .marriedOutOfRange 1 1 false 0, .marriedOutOfRange 1 2 true 1] := by decide
 
 end Gedcom.C20
